@@ -887,6 +887,7 @@ impl Serialize for MessageType {
             MessageType::Warning => serializer.serialize_i32(2),
             MessageType::Info => serializer.serialize_i32(3),
             MessageType::Log => serializer.serialize_i32(4),
+            #[cfg(feature = "proposed")]
             MessageType::Debug => serializer.serialize_i32(5),
         }
     }
@@ -902,6 +903,7 @@ impl<'de> Deserialize<'de> for MessageType {
             2 => Ok(MessageType::Warning),
             3 => Ok(MessageType::Info),
             4 => Ok(MessageType::Log),
+            #[cfg(feature = "proposed")]
             5 => Ok(MessageType::Debug),
             _ => Err(serde::de::Error::custom("Unexpected value")),
         }
@@ -1642,6 +1644,7 @@ pub enum InlineCompletionTriggerKind {
     /// Completion was triggered automatically while editing.
     Automatic = 2,
 }
+#[cfg(feature = "proposed")]
 impl Serialize for InlineCompletionTriggerKind {
     fn serialize<S>(&self, serializer: S) -> Result<S::Ok, S::Error>
     where
@@ -1653,6 +1656,7 @@ impl Serialize for InlineCompletionTriggerKind {
         }
     }
 }
+#[cfg(feature = "proposed")]
 impl<'de> Deserialize<'de> for InlineCompletionTriggerKind {
     fn deserialize<D>(deserializer: D) -> Result<InlineCompletionTriggerKind, D::Error>
     where
